@@ -416,3 +416,31 @@ def predict_two_positions_defect(ex, ey, px, py, kwargs=None):
         return est_multivariate(ex, ey, qx, qy, bw=(kwargs or {}).get("bw"))
     except Undefined:
         return None
+
+
+M_UNSIGNED_WRAP = "multivariate-kde-unsigned-integer-wraparound"
+
+
+def predict_unsigned_wrap_defect(x_raw, y_raw, kwargs=None):
+    """Defect model: when both features are stored as unsigned integers (and no scaling or
+    explicit float positions turn them into floats) the product-kernel estimator computes
+    (Xi - x)**2 and its negation in unsigned arithmetic, which wraps around.
+    x_raw / y_raw: the selected events in their stored dtype.  -> predicted output or None"""
+    x_raw, y_raw = np.asarray(x_raw), np.asarray(y_raw)
+    if x_raw.dtype.kind != "u" or y_raw.dtype.kind != "u" or x_raw.size < 3:
+        return None
+    bw = (kwargs or {}).get("bw")
+    if bw is None:
+        hx, hy = doane_width(x_raw) / 2, doane_width(y_raw) / 2
+    else:
+        hx, hy = float(bw[0]), float(bw[1])
+    data = np.asarray([x_raw, y_raw]).T          # common unsigned dtype, as in the library
+    n = data.shape[0]
+    out = np.empty(n, dtype=np.float64)
+    c = 1.0 / math.sqrt(2 * math.pi)
+    with np.errstate(all="ignore"):
+        for i in range(n):
+            kx = c * np.exp(-(data[:, 0] - data[i, 0]) ** 2 / (hx ** 2 * 2.0))
+            ky = c * np.exp(-(data[:, 1] - data[i, 1]) ** 2 / (hy ** 2 * 2.0))
+            out[i] = (kx * ky / (hx * hy)).sum() / n
+    return out
